@@ -75,7 +75,7 @@ def run(case: dict, lean: Lean) -> Outcome:
                 else: c = Rec(); cs.append(c); prev = b.add_component(f"c{k}", c, items=prev); kinds.append(True)
             return b.build(), cs
         st = rnd.getstate(); p, cs = build(); rnd.setstate(st); p2, cs2 = build()
-        d = _data(rnd, 100, 6, 1000, 6); seed = rnd.randrange(10**6)
+        d = _data(rnd, 100, 6, 1000, 6); seed = rnd.choice([0, 0, 1, rnd.randrange(10**6), rnd.randrange(10**6)])      # 0 is a seed like any other
         p.train(d, TrainingOptions(rng=seed)); p2.train(d, TrainingOptions(rng=seed))
         # the model of the training loop: which nodes are trained, and the spawn key of the seed each one receives
         log = lean.call("c18.train_all", {"nodes": [[k, t] for k, t in enumerate(kinds)], "seeded": True})
@@ -96,12 +96,28 @@ def run(case: dict, lean: Lean) -> Outcome:
         nx = (c0 + 1 + k) % 3; msteps.append([nx, st != "skip"]); c0 = nx if st != "skip" else c0
     origin = lean.call("c18.guard", {"steps": msteps})
     fresh_state = {}
+    def probe(c, dset):
+        """what the component answers on the dataset it should now reflect (also exercises any lazily built cache)"""
+        from lenskit.data import ItemList
+        from lenskit.data.query import RecQuery
+        u = int(dset.users.ids()[0]); items = ItemList(item_ids=[int(i) for i in dset.items.ids()] + [424242])
+        q = RecQuery(user_id=u, user_items=dset.user_row(u))
+        try:
+            if case["comp"] == "pop": o = c(items)
+            elif case["comp"] == "cand": o = c(q)
+            elif case["comp"] == "hist": o = c(q).user_items
+            else: o = c(q, items)
+            sc = o.scores()
+            return ([int(i) for i in o.ids()], None if sc is None else [None if x != x else round(float(x), 5) for x in sc])
+        except Exception as e: return "EXC:" + type(e).__name__
+    probe(a, d[0])                      # the component is put to use before it is trained again
     for k, st in enumerate(case["steps"]):
         nxt = (cur + 1 + k) % 3; classes.add("step:" + st)
         if origin[k + 1] != (cur if st == "skip" else nxt): failed.append("harness and guard model disagree about the data a state comes from"); keys.add("?guard-model")
         if st == "skip":
             a.train(d[nxt], TrainingOptions(rng=6 + k, retrain=False))
             if snap(a) != state: failed.append(f"step {k}: retrain=False changed the trained model"); keys.add("?skip")
+            probe(a, d[cur]); state = snap(a)
         else:
             a.train(d[nxt], TrainingOptions(rng=6 + k, retrain=True)); state = snap(a); cur = nxt
             b = _make(case["comp"]); b.train(d[nxt], TrainingOptions(rng=6 + k))
@@ -112,6 +128,9 @@ def run(case: dict, lean: Lean) -> Outcome:
                     keys.add("BiasedSVDScorer ignores the training seed" if case["comp"] == "bsvd" else "?nondeterministic " + case["comp"])
                 else:
                     failed.append(f"step {k}: retrained model differs from a fresh one trained on the same data"); keys.add("?stale state " + case["comp"])
+            pa, pb = probe(a, d[nxt]), probe(b, d[nxt])
+            if pa != pb: failed.append(f"step {k}: after retraining the component answers {str(pa)[:120]}, a fresh one {str(pb)[:120]}"); keys.add("?stale behaviour " + case["comp"])
+            state = snap(a)
     return Outcome(not failed, not failed, tuple(sorted(classes)), {"failed": failed[:6]}, tuple(sorted(keys)) if keys else None)
 
 SPEC = CheckSpec(
